@@ -770,7 +770,15 @@ func genPredC03(r *core.Rng, als []aliasInfo, depth int, allowSub bool) *rex {
 	case 2:
 		return &rex{k: "isnull", a: ic(), neg: r.Bool()}
 	case 3:
-		return &rex{k: "between", a: ic(), b: ilit(r.Range(0, 3)), c: ilit(r.Range(2, 7)), neg: r.P(30)}
+		// (bounds are literals or columns: a column bound is NULL for some rows, for instance the padding of an outer join)
+		lo, hi := ilit(r.Range(0, 3)), ilit(r.Range(2, 7))
+		if r.P(40) {
+			lo = ic()
+		}
+		if r.P(25) {
+			hi = ic()
+		}
+		return &rex{k: "between", a: ic(), b: lo, c: hi, neg: r.P(45)}
 	case 4:
 		l := []*rex{ilit(r.Range(0, 6)), ilit(r.Range(0, 6))}
 		if r.P(30) {
